@@ -179,7 +179,7 @@ Lemma skip_string_ok : forall t str, jstring t str ->
     exists s', skip_quoted_string fuel s = (Ok, s') /\
                good s' /\ stream s' = tail /\ cur s' = None /\ found s' = found s.
 Proof.
-  intros t str (body & -> & J) fuel s tail G S L.
+  intros t str (body & -> & J & _) fuel s tail G S L.
   rewrite <- !app_assoc in S. cbn [app] in S.
   rewrite !app_length in L. cbn [length] in L.
   assert (Q : 34 <> 0) by lia.
